@@ -1,4 +1,5 @@
 import Pm.ReplyProof
+import Pm.E2EEx
 /-! # C02 — success is reported only when every target was really handled  (client side: `client.c`)
 
 What is shown here, about the real definitions of `Pm/Daemon.lean` (`finalReply`, `actFinish`, `applyOuts`),
@@ -15,9 +16,15 @@ for every command `c : CmdC` (any target list, repetitions included, any arglist
   for a client without a command is the C `assert`, a completion for a departed client is dropped
   (`C02_pending_countdown_*`).
 
-Not covered here (device side, `Pm/Dev2*.lean`): that each failing action produces a completion with an error
-code, and that `setresult` classifies a plug as unsuccessful.  `sortedRanged … = none` (finding F19: the assert
-inside `hostlist_sort`) is carried as a case: the daemon is gone, no reply is written. -/
+`sortedRanged … = none` (finding F19: the assert inside `hostlist_sort`) is carried as a case: the daemon is gone, no
+reply is written.
+
+The second half of the file (`## end to end`) composes this with the device side (`Pm/Dev2*.lean`), the request side
+(`Props/C01`) and the pass (`daemonPass`): the invariant "`pending` = number of the client's actions still queued"
+(`C02_pending_is_queued`), what one pass does to a command in progress (`C02_pass`), and over any run of passes
+`C02_sound` / `C02_complete` / `C02_errors_named`; `C02_success_is_completion` says what a success completion means on
+the device, `C02_request_installed` / `C02_targets_covered` / `C02_cannot_be_handled` what an accepted request queued.
+Helper lemmas: `Pm/E2EDev.lean`, `Pm/E2ECli.lean`, `Pm/EndToEnd.lean`; example run: `Pm/E2EEx.lean`. -/
 namespace Pm.Props.C02
 open Pm Pm.Client Pm.Daemon
 open Pm.Daemon.Reply
@@ -92,7 +99,7 @@ theorem C02_error_accumulates (w : W) (name : Bytes) (id : Nat) (outs : List DOu
     cliOf (applyOuts w name outs).1 id =
       some { c with cmd := some { k with error := k.error || outs.any (finErr id), pending := k.pending - outs.countP (isFin id) },
                     toBuf := c.toBuf ++ outs.flatMap (outText name id) } := by
-  rw [applyOuts_eq]
+  rw [Reply.applyOuts_eq]
   exact fold_pending name id outs (w, []) c k h hc hlt
 
 /-- **Sticky error.**  A run of callbacks ending with the completion that brings `pending` to zero, in which some
@@ -109,7 +116,7 @@ theorem C02_error_sticky (w : W) (name : Bytes) (id : Nat) (pre : List DOut) (e 
            some { c with cmd := none, toBuf := c.toBuf ++ pre.flatMap (outText name id) ++ errPre e name ++ r ++ prompt } ∧
          ((isPower k.com = true ∧ r = bstr "210 Command completed with errors" ++ crlf) ∨
           (isQueryCom k.com = true ∧ (bstr "211 Query completed with errors" ++ crlf) <:+ r)) := by
-  rw [applyOuts_eq]
+  rw [Reply.applyOuts_eq]
   exact fold_final_error name id pre e (w, []) c k h hc hn herr
 
 /-- **Conversely**: a power command whose flag is clear and none of whose completions carried an error gets
@@ -123,7 +130,7 @@ theorem C02_all_success (w : W) (name : Bytes) (id : Nat) (pre : List DOut) (e :
       some { c with cmd := none, toBuf := c.toBuf ++ pre.flatMap (outText name id) ++
                       (if bad then bstr "210 Command completed with errors" ++ crlf
                        else bstr "102 Command completed successfully" ++ crlf) ++ prompt } := by
-  rw [applyOuts_eq]
+  rw [Reply.applyOuts_eq]
   exact fold_final_power_clean name id pre e (w, []) c k h hc hn hp hclean
 
 /-! ## the countdown -/
@@ -181,5 +188,388 @@ example : (cliOf (applyOuts w0 (bstr "pdu0") [.finish 7 .success, .finish 7 .suc
     some (bstr "102 Command completed successfully\r\npowerman> ") := by
   decide +kernel
 example : (actFinish w0 3 .success []).2 = true ∧ (actFinish w0 9 .success []).1.clients.length = 2 := by decide +kernel
+
+/-! ## end to end
+
+`runPasses w ps` is the world after the passes `ps` (each a `daemonPass` with its kernel answers `PassIn`); `cliRec w g` is
+the record of the client with id `g`; `totalQ g devs` the number of actions of client `g` in all device queues;
+`passDead w p` says the pass ended in a modelled assertion (the C process is gone; what the model computes afterwards
+means nothing), `Alive w ps` that no pass of the run did; `passFins w p g` / `runFins w ps g` are the completions the
+devices reported for client `g` in a pass / a run, as pairs (device name, outcome), in the order of delivery;
+`passText w p g` the `305`/`308`/`309` lines the device phase of the pass wrote to the client. -/
+section endToEnd
+open Pm.Daemon.E2E
+open Pm.Daemon.Isolation (runPasses)
+open Pm.Daemon.Enq (installDev installTotal newActs tgt)
+open Pm.Dev2 (Dev Action Plug Oracle qcount)
+
+/-- **The invariant: `pending` = queued.**  `Inv w` is the id and arglist disciplines of C11 together with: for every live
+    client, `pending` of its command (0 without a command) is the number of its actions in all device queues, and a
+    command in progress waits for at least one (spelled out in `C02_Inv_spelled`).  It holds when the daemon starts (no
+    client, empty queues: `C02_Inv_init`) and after any run of passes none of which ends in an assertion — whatever the
+    kernel answers, whatever the other clients do. -/
+theorem C02_pending_is_queued (w : W) (ps : List PassIn) (h : Inv w) (ha : Alive w ps) : Inv (runPasses w ps) :=
+  runPasses_inv w ps h ha
+
+theorem C02_Inv_init (w : W) (hc : w.clients = []) (hq : ∀ nd ∈ w.devs, nd.2.acts = []) (hn : 0 < w.nextId) (ha : 0 < w.alNext) :
+    Inv w := inv_init w hc hq hn ha
+
+theorem C02_Inv_spelled (w : W) (h : Inv w) (g : Nat) (c : Cli) (hc : cliRec w g = some c) :
+    match c.cmd with
+    | some k => k.pending = totalQ g w.devs ∧ 0 < k.pending
+    | none => totalQ g w.devs = 0 := h.spelled g c hc
+
+/-- what `Alive` and `runFins` are -/
+theorem C02_run_defs (w : W) (p : PassIn) (ps : List PassIn) (g : Nat) :
+    (Alive w (p :: ps) ↔ passDead w p = false ∧ Alive (daemonPass w p).1 ps) ∧
+    runFins w (p :: ps) g = passFins w p g ++ runFins (daemonPass w p).1 ps g ∧ runFins w [] g = [] :=
+  ⟨Iff.rfl, rfl, rfl⟩
+
+example : Inv Ex.w3 ∧ totalQ 1 Ex.w3.devs = 1 := ⟨Ex.inv3, Ex.reached.2.2.2⟩
+
+/-- **An accepted request.**  A line that leaves a client that had no command with the command `k`: `k`'s error flag is
+    clear, `pending` is the number of actions `dev_enqueue_actions` appended over all devices (it is positive), every
+    device's queue was extended by its `newActs` for the request (`Props/C01` says what these are), and every device the
+    request involves passed the capability check. -/
+theorem C02_request_installed (w : W) (c : Cli) (line : Bytes) (k : CmdC) (h0 : c.cmd = none)
+    (hk : (parseLine w c line).2.cmd = some k) :
+    ∃ tele al, k.error = false ∧ 0 < k.pending ∧
+      k.pending = installTotal (comIdx k.com) (k.names.map ofChars) c.id tele al w.devs ∧
+      (parseLine w c line).1.devs = w.devs.map (installDev (comIdx k.com) (k.names.map ofChars) c.id tele al) ∧
+      (∀ nd ∈ w.devs, needsDev nd.2 (k.names.map ofChars) = true → handles nd.2 (comIdx k.com) (k.names.map ofChars) = true) :=
+  request_installed w c line k h0 hk
+
+/-- the request `off n[1,3]` of client 5 in `exW` (`Pm/EnqProof.lean`) is accepted -/
+example : ∃ k tele al, (parseLine Pm.Daemon.Enq.exW Pm.Daemon.Enq.exC Pm.Daemon.Enq.exLine).2.cmd = some k ∧ k.error = false ∧ 0 < k.pending ∧
+    k.pending = installTotal (comIdx k.com) (k.names.map ofChars) Pm.Daemon.Enq.exC.id tele al Pm.Daemon.Enq.exW.devs := by
+  have h : ((parseLine Pm.Daemon.Enq.exW Pm.Daemon.Enq.exC Pm.Daemon.Enq.exLine).2.cmd).isSome = true := by decide +kernel
+  obtain ⟨k, hk⟩ := Option.isSome_iff_exists.mp h
+  obtain ⟨tele, al, h1, h2, h3, _⟩ := C02_request_installed _ _ _ k rfl hk
+  exact ⟨k, tele, al, hk, h1, h2, h3⟩
+
+/-- **Every named node's plug is covered.**  On a device that passed the capability check, every plug mapped to a named
+    node is commanded by one of the actions appended for the request (its plug list contains the plug; an `_all` action
+    commands every plug of the device).  With `C01_commanded` (the appended actions command *only* such plugs) the
+    actions a power request waits for address exactly the plugs of the named nodes. -/
+theorem C02_targets_covered (d : Dev) (com : Nat) (targets : List Bytes) (cid : Nat) (tele : Bool) (al : Nat)
+    (hh : handles d com targets = true) (p : Plug) (hp : p ∈ d.plugs) (n : Bytes) (hn : p.node = some n) (hm : n ∈ targets) :
+    ∃ a ∈ newActs d.plugs d.scripts com targets cid tele al, p ∈ a.commanded d :=
+  newActs_covers hh hp (Pm.Daemon.Enq.tgt_of_mem hn hm)
+
+/-- `off n1,n3` on `exDev` (plugs "1" ↦ n1, "2" unused, "3" ↦ n3, "4" ↦ n4): plug "3" is commanded by an appended action -/
+example : ∃ a ∈ newActs Pm.Daemon.Enq.exDev.plugs Pm.Daemon.Enq.exDev.scripts 10 [[110, 49], [110, 51]] 5 false 2,
+    Pm.Daemon.Enq.exP3 ∈ a.commanded Pm.Daemon.Enq.exDev :=
+  C02_targets_covered Pm.Daemon.Enq.exDev 10 [[110, 49], [110, 51]] 5 false 2 (by decide +kernel) Pm.Daemon.Enq.exP3 (by decide +kernel)
+    [110, 51] rfl (by decide +kernel)
+
+/-- **Targets that no script can handle.**  If some device the request involves has no script variant that can serve it,
+    the request is answered `213 Command cannot be handled by power control device(s)`; nothing is queued, no command is
+    installed. -/
+theorem C02_cannot_be_handled (w : W) (c : Cli) (com : Com) (names : List Name) (nd : Bytes × Dev) (hnd : nd ∈ w.devs)
+    (hneed : needsDev nd.2 (names.map ofChars) = true) (hno : handles nd.2 (comIdx com) (names.map ofChars) = false) :
+    install w c com names = (w, put c (codeLine 213 ++ crlf ++ (if c.quit then [] else prompt))) :=
+  cannot_be_handled w c com names nd hnd hneed hno
+
+/-- a device with plugs for n1 and n3 that has only the `off_all` script, asked to switch off n1 alone: 213 -/
+example : (install { cfg := { plugs := [], has := [], nodes := [], version := [] }, clients := [],
+                     devs := [([100], Pm.Daemon.Enq.exDevWith [Pm.Daemon.Enq.exP1, Pm.Daemon.Enq.exP3] Pm.Daemon.Enq.exScriptsAllOnly)] }
+      { id := 5, fd := 1000 } .off [['n', '1']]).2.toBuf =
+    bstr "213 Command cannot be handled by power control device(s)\r\npowerman> " := by
+  rw [C02_cannot_be_handled _ _ _ _ ([100], Pm.Daemon.Enq.exDevWith [Pm.Daemon.Enq.exP1, Pm.Daemon.Enq.exP3] Pm.Daemon.Enq.exScriptsAllOnly)
+    (by simp) (by decide +kernel) (by decide +kernel)]
+  decide +kernel
+
+/-- **One pass, seen from a client with a command in progress** (any command; the pass does not end in an assertion).
+    The client phase either destroys the client (error on its descriptor; its actions stay queued and their completions
+    are dropped) or leaves its command untouched — `c1` is its record then.  In the device phase, with `F` the completions
+    reported for the client: fewer than `pending` — the command stays, `pending` lowered by their number, the error flag
+    or-ed with "one of them failed", the lines appended; exactly `pending` — the command is cleared and the client is
+    sent the lines, then the terminal reply computed from that flag and the arglist as it stands after the pass, then the
+    prompt, and nothing else.  More than `pending` cannot happen. -/
+theorem C02_pass (w : W) (p : PassIn) (g : Nat) (c : Cli) (k : CmdC) (hinv : Inv w) (hd : passDead w p = false)
+    (hc : cliRec w g = some c) (hk : c.cmd = some k) :
+    (cliRec (cliPostPoll w p.acc p.envs) g = none ∧ cliRec (daemonPass w p).1 g = none) ∨
+    ∃ c1, cliRec (cliPostPoll w p.acc p.envs) g = some c1 ∧ c1.cmd = some k ∧
+      (((passFins w p g).length < k.pending ∧
+        cliRec (daemonPass w p).1 g =
+          some { c1 with cmd := some { k with error := k.error || (passFins w p g).any failed,
+                                              pending := k.pending - (passFins w p g).length },
+                         toBuf := c1.toBuf ++ passText w p g }) ∨
+       ((passFins w p g).length = k.pending ∧
+        ∃ r, finalReply c1.exprange { k with error := k.error || (passFins w p g).any failed,
+                                             args := (storeArgs (daemonPass w p).1 k.al).map argC } = some r ∧
+          cliRec (daemonPass w p).1 g = some { c1 with cmd := none, toBuf := c1.toBuf ++ passText w p g ++ r ++ prompt })) :=
+  daemonPass_view w p g c k hinv hd hc hk
+
+/-- pass 4 of the example run: the hypotheses hold, and it is the second alternative (one completion, `pending = 1`) -/
+example : (passFins Ex.w3x Ex.p4 1).length = Ex.k0.pending ∧ passDead Ex.w3x Ex.p4 = false ∧ Inv Ex.w3x :=
+  ⟨by decide +kernel, by decide +kernel, Ex.inv3x⟩
+
+/-- **C02, soundness.**  Client `g` has the power command `k0` in progress in a state `w0` satisfying the invariant
+    (`k0.pending` = the number of its actions queued); a run of passes follows, none ending in an assertion; before the
+    last pass `p` the command (identified by its arglist id, which is never reused) is still in progress, after it the
+    client is there and idle.  If its output buffer then ends with `102 Command completed successfully` and the prompt:
+    * `k0`'s error flag was clear (for a request just accepted it is: `C02_request_installed`);
+    * the devices reported exactly `k0.pending` completions for the client during the run — one for every action it had
+      queued (`k0.pending = totalQ g w0.devs`; none is reported twice or lost: `C04_completions_conserved`);
+    * every one of them is a success — no time-out, no connect or login failure, no aborted queue entry; and a success is
+      reported only for a script that ran to its end (`C02_success_is_completion`);
+    * no result cell of a target is `unknown` (`RT_UNKNOWN`) in the arglist as it stands after the pass. -/
+theorem C02_sound (w0 : W) (ps : List PassIn) (p : PassIn) (g : Nat) (c0 : Cli) (k0 : CmdC) (c' : Cli)
+    (hinv : Inv w0) (ha : Alive w0 (ps ++ [p])) (hc0 : cliRec w0 g = some c0) (hk0 : c0.cmd = some k0)
+    (hp : k0.com ∈ [Com.on, .off, .cycle, .reset, .flash, .unflash])
+    (hbusy : ∃ c k, cliRec (runPasses w0 ps) g = some c ∧ c.cmd = some k ∧ k.al = k0.al)
+    (hidle : cliRec (runPasses w0 (ps ++ [p])) g = some c') (hnone : c'.cmd = none)
+    (h102 : bstr "102 Command completed successfully" ++ crlf ++ prompt <:+ c'.toBuf) :
+    k0.error = false ∧ (runFins w0 (ps ++ [p]) g).length = k0.pending ∧ k0.pending = totalQ g w0.devs ∧
+    (∀ x ∈ runFins w0 (ps ++ [p]) g, x.2 = .success) ∧
+    ∀ n ∈ k0.names, ∀ a, ((storeArgs (runPasses w0 (ps ++ [p])) k0.al).map argC).find? (·.node == n) = some a → a.result ≠ 1 :=
+  sound w0 ps p g c0 k0 c' hinv ha hc0 hk0 ((isPower_iff k0.com).mpr hp) hbusy hidle hnone (by simpa [okLine, List.append_assoc] using h102)
+
+/-- the example run: the device answers, the script comes to its end, the client gets `102` -/
+example : Ex.k0.error = false ∧ (runFins Ex.w3x ([] ++ [Ex.p4]) 1).length = Ex.k0.pending ∧ Ex.k0.pending = totalQ 1 Ex.w3x.devs ∧
+    (∀ x ∈ runFins Ex.w3x ([] ++ [Ex.p4]) 1, x.2 = .success) ∧
+    ∀ n ∈ Ex.k0.names, ∀ a, ((storeArgs (runPasses Ex.w3x ([] ++ [Ex.p4])) Ex.k0.al).map argC).find? (·.node == n) = some a → a.result ≠ 1 :=
+  C02_sound Ex.w3x [] Ex.p4 1 Ex.c0 Ex.k0 Ex.c4 Ex.inv3x Ex.alive4 Ex.hc0x Ex.hk0 (by decide +kernel)
+    ⟨Ex.c0, Ex.k0, Ex.hc0x, Ex.hk0, rfl⟩ Ex.hc4 Ex.idle4 ⟨bstr "001 2\r\npowerman> ", by rw [Ex.buf4]; simp [okLine, List.append_assoc]⟩
+
+/-- **C02, completeness** (same setting).  If `k0`'s error flag was clear, every completion the run reported for the client
+    is a success and no result cell of a target is `unknown` after the answering pass, the client was sent — after the
+    lines of that pass — `102 Command completed successfully` and the prompt (`c1` is its record when the client phase of
+    the pass is over). -/
+theorem C02_complete (w0 : W) (ps : List PassIn) (p : PassIn) (g : Nat) (c0 : Cli) (k0 : CmdC) (c' : Cli)
+    (hinv : Inv w0) (ha : Alive w0 (ps ++ [p])) (hc0 : cliRec w0 g = some c0) (hk0 : c0.cmd = some k0)
+    (hp : k0.com ∈ [Com.on, .off, .cycle, .reset, .flash, .unflash])
+    (hbusy : ∃ c k, cliRec (runPasses w0 ps) g = some c ∧ c.cmd = some k ∧ k.al = k0.al)
+    (hidle : cliRec (runPasses w0 (ps ++ [p])) g = some c') (hnone : c'.cmd = none)
+    (herr : k0.error = false) (hall : ∀ x ∈ runFins w0 (ps ++ [p]) g, x.2 = .success)
+    (hres : ∀ n ∈ k0.names, ∀ a, ((storeArgs (runPasses w0 (ps ++ [p])) k0.al).map argC).find? (·.node == n) = some a → a.result ≠ 1) :
+    ∃ c1, cliRec (cliPostPoll (runPasses w0 ps) p.acc p.envs) g = some c1 ∧
+      c'.toBuf = c1.toBuf ++ passText (runPasses w0 ps) p g ++ (bstr "102 Command completed successfully" ++ crlf) ++ prompt :=
+  complete w0 ps p g c0 k0 c' hinv ha hc0 hk0 ((isPower_iff k0.com).mpr hp) hbusy hidle hnone herr hall hres
+
+example : ∃ c1, cliRec (cliPostPoll (runPasses Ex.w3x []) Ex.p4.acc Ex.p4.envs) 1 = some c1 ∧
+    Ex.c4.toBuf = c1.toBuf ++ passText (runPasses Ex.w3x []) Ex.p4 1 ++ (bstr "102 Command completed successfully" ++ crlf) ++ prompt :=
+  C02_complete Ex.w3x [] Ex.p4 1 Ex.c0 Ex.k0 Ex.c4 Ex.inv3x Ex.alive4 Ex.hc0x Ex.hk0 (by decide +kernel)
+    ⟨Ex.c0, Ex.k0, Ex.hc0x, Ex.hk0, rfl⟩ Ex.hc4 Ex.idle4 (by decide +kernel)
+    (by rw [Ex.fins4]; intro x hx; simp only [List.mem_singleton] at hx; subst hx; rfl)
+    (by decide +kernel)
+
+/-- **C02, errors are reported and named** (same setting).  If `k0`'s error flag was set, or some completion the run
+    reported for the client is a failure (expect time-out, aborted queue entry, connect or login time-out), or some
+    result cell of a target is `unknown` after the answering pass, the client was sent — after the lines of that pass —
+    `210 Command completed with errors` and the prompt; and every failed completion of that pass has its line
+    `308 <device>: <reason>` among those lines (for a failed completion of an earlier pass the line was written in that
+    pass: `C02_failure_line`). -/
+theorem C02_errors_named (w0 : W) (ps : List PassIn) (p : PassIn) (g : Nat) (c0 : Cli) (k0 : CmdC) (c' : Cli)
+    (hinv : Inv w0) (ha : Alive w0 (ps ++ [p])) (hc0 : cliRec w0 g = some c0) (hk0 : c0.cmd = some k0)
+    (hp : k0.com ∈ [Com.on, .off, .cycle, .reset, .flash, .unflash])
+    (hbusy : ∃ c k, cliRec (runPasses w0 ps) g = some c ∧ c.cmd = some k ∧ k.al = k0.al)
+    (hidle : cliRec (runPasses w0 (ps ++ [p])) g = some c') (hnone : c'.cmd = none)
+    (hbad : k0.error = true ∨ (∃ x ∈ runFins w0 (ps ++ [p]) g, x.2 ≠ .success) ∨
+      ¬ ∀ n ∈ k0.names, ∀ a, ((storeArgs (runPasses w0 (ps ++ [p])) k0.al).map argC).find? (·.node == n) = some a → a.result ≠ 1) :
+    (∃ c1, cliRec (cliPostPoll (runPasses w0 ps) p.acc p.envs) g = some c1 ∧
+      c'.toBuf = c1.toBuf ++ passText (runPasses w0 ps) p g ++ (bstr "210 Command completed with errors" ++ crlf) ++ prompt) ∧
+    ∀ x ∈ passFins (runPasses w0 ps) p g, x.2 ≠ .success →
+      ∃ u v reason, passText (runPasses w0 ps) p g = u ++ (bstr "308 " ++ (x.1 ++ reason) ++ crlf) ++ v :=
+  errors w0 ps p g c0 k0 c' hinv ha hc0 hk0 ((isPower_iff k0.com).mpr hp) hbusy hidle hnone hbad
+
+/-- the example run, the other way: nothing comes from the device, the action times out, the client gets `308 A: …` and `210` -/
+example : (∃ c1, cliRec (cliPostPoll (runPasses Ex.w3 []) Ex.pLate.acc Ex.pLate.envs) 1 = some c1 ∧
+      Ex.cL.toBuf = c1.toBuf ++ passText (runPasses Ex.w3 []) Ex.pLate 1 ++ (bstr "210 Command completed with errors" ++ crlf) ++ prompt) ∧
+    ∀ x ∈ passFins (runPasses Ex.w3 []) Ex.pLate 1, x.2 ≠ .success →
+      ∃ u v reason, passText (runPasses Ex.w3 []) Ex.pLate 1 = u ++ (bstr "308 " ++ (x.1 ++ reason) ++ crlf) ++ v :=
+  C02_errors_named Ex.w3 [] Ex.pLate 1 Ex.c0 Ex.k0 Ex.cL Ex.inv3 Ex.aliveL Ex.hc0 Ex.hk0 (by decide +kernel)
+    ⟨Ex.c0, Ex.k0, Ex.hc0, Ex.hk0, rfl⟩ Ex.hcL Ex.idleL
+    (Or.inr (Or.inl ⟨([65], .expfail), by rw [Ex.finsL]; simp, by simp⟩))
+example : Ex.cL.toBuf = bstr "001 2\r\npowerman> 308 A: action timed out waiting for expected response\r\n210 Command completed with errors\r\npowerman> " := by
+  decide +kernel
+
+/-- **A failed completion is named at once.**  In any pass, every failed completion reported for client `g` has its line
+    `308 <device>: <reason>` among the lines the pass writes to the client (`passText`, which `C02_pass` shows appended
+    to its buffer). -/
+theorem C02_failure_line (w : W) (p : PassIn) (g : Nat) (x : Bytes × Pm.Dev2.ActErr) (hx : x ∈ passFins w p g) (hf : x.2 ≠ .success) :
+    ∃ u v reason, passText w p g = u ++ (bstr "308 " ++ (x.1 ++ reason) ++ crlf) ++ v :=
+  passText_failure w p g x hx hf
+
+example : ∃ u v reason, passText Ex.w3 Ex.pLate 1 = u ++ (bstr "308 " ++ ([65] ++ reason) ++ crlf) ++ v :=
+  C02_failure_line Ex.w3 Ex.pLate 1 ([65], .expfail) (by decide +kernel) (by simp)
+
+/-- **What a success completion means on the device.**  A completion in the log of a pass was reported by the turn of some
+    device, under that device's name (first part; `accAt … i` is the state of the pass when device number `i` has its
+    turn).  And (second part) a `success` reported by a device's turn for client `g` was reported by an iteration of
+    `_process_action`'s loop (`iterStates`, from the device as `_handle_ready_device`, `_reconnect` and the ping left it) in
+    which the head action — an action of client `g` — `Completes`: device connected, action within its time-out, the
+    statement interpreter reported the statement the action stood at finished (so every `expect` before it has matched,
+    `C08_expect_blocks`), no assertion, the action not failed, and no statement left in any block.  The time-out branch
+    and the error branch (connect / login failure, i/o error, everything queued behind a failed action) report failures
+    only (`C12_timeout_reports_all`, `C12_fail_all_reports`). -/
+theorem C02_success_is_completion :
+    (∀ (w : W) (p : PassIn) (g : Nat) (x : Bytes × Pm.Dev2.ActErr), (cliPostPoll w p.acc p.envs).exited = false → x ∈ passFins w p g →
+      ∃ i nd, (cliPostPoll w p.acc p.envs).devs[i]? = some nd ∧ x.1 = nd.1 ∧
+        Pm.Dev2.Out.finish g x.2 ∈ (devStep p (accAt p (acc0 (cliPostPoll w p.acc p.envs)) (cliPostPoll w p.acc p.envs).devs i).w
+          (accAt p (acc0 (cliPostPoll w p.acc p.envs)) (cliPostPoll w p.acc p.envs).devs i).oracle nd).2.2.1) ∧
+    (∀ (p : PassIn) (w : W) (o : Oracle) (nd : Bytes × Dev) (g : Nat),
+      Pm.Dev2.Out.finish g .success ∈ (devStep p w o nd).2.2.1 →
+      ∃ s ∈ Pm.Dev2.Login2.iterStates
+          (Pm.Dev2.passFuel (Pm.Dev2.Login2.postPollPre { nd.2 with args := w.store } (devEnv p w nd)).1.dev)
+          (Pm.Dev2.Login2.postPollPre { nd.2 with args := w.store } (devEnv p w nd)).1 o []
+          (Pm.Dev2.Login2.postPollPre { nd.2 with args := w.store } (devEnv p w nd)).2,
+        ∃ act, Pm.Dev2.E2E.Completes s.1 s.2 act ∧ act.clientId = g) := by
+  refine ⟨?_, fun p w o nd g h => turn_success p w o nd g h⟩
+  intro w p g x hex hx
+  unfold passFins at hx
+  rw [if_neg (by simpa using hex)] at hx
+  obtain ⟨i, nd, h1, h2, _, h4⟩ := mem_foldFins p g _ _ x hx
+  exact ⟨i, nd, h1, h2, h4⟩
+
+/-- pass 4 of the example run: the success reported for client 1 comes from a completing iteration of device `A`'s turn -/
+example : ∃ (i : Nat) (nd : Bytes × Dev) (s : Pm.Dev2.CS × Oracle) (act : Action),
+    (cliPostPoll Ex.w3x Ex.p4.acc Ex.p4.envs).devs[i]? = some nd ∧ nd.1 = [65] ∧ Pm.Dev2.E2E.Completes s.1 s.2 act ∧ act.clientId = 1 := by
+  obtain ⟨i, nd, h1, h2, h3⟩ := C02_success_is_completion.1 Ex.w3x Ex.p4 1 ([65], .success) (by decide +kernel) (by decide +kernel)
+  obtain ⟨s, _, act, h4, h5⟩ := C02_success_is_completion.2 _ _ _ _ _ h3
+  exact ⟨i, nd, s, act, h1, h2.symm, h4, h5⟩
+
+/-- what `Completes` says, spelled out -/
+theorem C02_Completes_spelled (c : Pm.Dev2.CS) (o : Oracle) (a : Action) :
+    Pm.Dev2.E2E.Completes c o a ↔
+      Pm.Dev2.Login2.speaker c = some a ∧
+      Pm.Dev2.hasAbort (Pm.Dev2.innerLoop c.env.now (Pm.Dev2.loopBound a) { c.dev with wake := none } a o []).out = false ∧
+      (Pm.Dev2.innerLoop c.env.now (Pm.Dev2.loopBound a) { c.dev with wake := none } a o []).finished = true ∧
+      (Pm.Dev2.innerLoop c.env.now (Pm.Dev2.loopBound a) { c.dev with wake := none } a o []).act.errnum = .success ∧
+      (Pm.Dev2.advance (Pm.Dev2.innerLoop c.env.now (Pm.Dev2.loopBound a) { c.dev with wake := none } a o []).act).exec = [] :=
+  Iff.rfl
+
+/-- **One iteration of `_process_action` reports a success only for a completing run of the head action** -/
+theorem C02_success_only_on_completion (c : Pm.Dev2.CS) (o : Oracle) (out : List Pm.Dev2.Out) (tmo : Option Pm.Dev2.Time) (cid : Nat)
+    (h : Pm.Dev2.Out.finish cid .success ∈ (Pm.Dev2.Login2.bodyStep c o out tmo).1.2.2.1) :
+    Pm.Dev2.Out.finish cid .success ∈ out ∨ ∃ a, Pm.Dev2.E2E.Completes c o a ∧ a.clientId = cid :=
+  Pm.Dev2.E2E.bodyStep_success c o out tmo cid h
+
+/-- **Nothing is written behind the terminal reply.**  After a device's turn, a client none of whose actions is left in
+    that device's queue has had a completion as the last callback of the turn addressed to it (if any): no telemetry
+    line, no diagnostic follows the completion that triggers the reply. -/
+theorem C02_last_word (d : Dev) (env : Pm.Dev2.Env) (o : Oracle) (cid : Nat) (hc : cid ≠ 0)
+    (hq : qcount cid (Pm.Dev2.postPoll d env o).1.dev.acts = 0) :
+    ∀ x, ((Pm.Dev2.postPoll d env o).2.2.1.filter fun y => Pm.Dev2.outCid y == some cid).getLast? = some x → Pm.Dev2.isFinish x = true :=
+  Pm.Dev2.E2E.postPoll_lastFin d env o cid hc hq
+
+example : qcount 1 (Pm.Dev2.postPoll Pm.Daemon.E2E.Ex.devA { now := 0, revents := 0, sockets := [], connects := [], soerrs := [], read := none, writeOk := true } ⟨[]⟩).1.dev.acts = 0 := by
+  decide +kernel
+
+/-- **A completing iteration is the C08 reference run to the end of the program.**  If the head action is well-formed
+    (`Interp.Inv`: true of a freshly enqueued action on a script with non-empty blocks, kept by every pass, restored by
+    `_rewind_action`: `C08_initial`, `C08_refines`, `C08_rewind`) and the iteration `Completes` it, then the loop-free
+    reference program its context stack denotes (`abs R dp a.exec`: what is left of the unrolled script) runs — same device
+    state, regex answers and clock — to status `done` with nothing left: every remaining `send` written out, every
+    remaining `expect` matched, every `delay` elapsed.  (`Interp.Inv` is a hypothesis here: that it holds for every queued
+    action along a run of the daemon is not proved in this file.) -/
+theorem C02_completion_is_reference_done (R : Bool) (dp : List Plug) (c : Pm.Dev2.CS) (o : Oracle) (a : Action)
+    (hc : Pm.Dev2.E2E.Completes c o a) (hinv : Pm.Dev2.Interp.Inv R dp c.dev a) (hne : a.exec ≠ []) :
+    ∃ k, (Pm.Dev2.Interp.frun c.env.now k { c.dev with wake := none } (Pm.Dev2.Interp.info a) o (Pm.Dev2.Interp.abs R dp a.exec) []).status = .done ∧
+         (Pm.Dev2.Interp.frun c.env.now k { c.dev with wake := none } (Pm.Dev2.Interp.info a) o (Pm.Dev2.Interp.abs R dp a.exec) []).f.rem = [] :=
+  Pm.Dev2.E2E.completes_reference R dp c o a hc hinv hne
+
+/-- a fresh action on the script `delay 0` at the head of the queue of the connected device `exCS` of `Props/C08`: the
+    iteration completes it, the action is well-formed, and the reference — one `delay` operation — runs to its end -/
+example : ∃ k, (Pm.Dev2.Interp.frun 5 k { (Pm.Dev2.Interp.exCS [.delay 0]).dev with wake := none }
+      (Pm.Dev2.Interp.info (Pm.Dev2.stamp 5 (Pm.Dev2.Interp.exAction [.delay 0] none))) ⟨[]⟩
+      (Pm.Dev2.Interp.abs false (Pm.Dev2.Interp.exCS [.delay 0]).dev.plugs (Pm.Dev2.stamp 5 (Pm.Dev2.Interp.exAction [.delay 0] none)).exec) []).status = .done :=
+  (fun ⟨k, h, _⟩ => ⟨k, h⟩) <| C02_completion_is_reference_done false (Pm.Dev2.Interp.exCS [.delay 0]).dev.plugs (Pm.Dev2.Interp.exCS [.delay 0]) ⟨[]⟩
+    (Pm.Dev2.stamp 5 (Pm.Dev2.Interp.exAction [.delay 0] none))
+    ⟨rfl, by decide +kernel, by decide +kernel, by decide +kernel, by decide +kernel⟩
+    (by have h := Pm.Dev2.Interp.exInv [.delay 0] (by decide) []; exact ⟨h.ranged, h.plugs, h.ok, h.err⟩)
+    (by decide +kernel)
+
+/-- **The time-out branch and the error branch never report a success**: whatever `_process_action` reports when the head's
+    deadline has passed (connect time-out, login time-out, expect time-out; everything queued behind is reported too), and
+    whatever it reports for a failed action and everything queued behind it (aborted), is a failure. -/
+theorem C02_failures_are_failures (rest : List Action) (c : Pm.Dev2.CS) (a : Action) (o : Oracle) (out : List Pm.Dev2.Out)
+    (tmo : Option Pm.Dev2.Time) (cid : Nat) :
+    (Pm.Dev2.Out.finish cid .success ∈ (Pm.Dev2.onTimeout rest c a o out tmo).2.2.1 → Pm.Dev2.Out.finish cid .success ∈ out) ∧
+    (a.errnum ≠ .success → Pm.Dev2.Out.finish cid .success ∈ (Pm.Dev2.failAll rest c a o out tmo).2.2.1 →
+      Pm.Dev2.Out.finish cid .success ∈ out) :=
+  ⟨Pm.Dev2.E2E.onTimeout_noSuccess rest c a o out tmo cid, fun he => Pm.Dev2.E2E.failAll_noSuccess rest c a o out tmo he cid⟩
+
+/-- `dev_initial_connect` (start-up) keeps the invariant: it only adds login actions, which belong to no client -/
+theorem C02_Inv_initial_connect (w : W) (now con soe : Nat) (h : Inv w) : Inv (initialConnect w now con soe).1 :=
+  initialConnect_inv w now con soe h
+
+example : Inv (initialConnect Ex.w0 0 0 0).1 := C02_Inv_initial_connect Ex.w0 0 0 0 Ex.inv0
+
+/-- **What can become of a command over a run** (no pass ending in an assertion): it is still in progress at the end (and
+    then `C02_track` says with what `pending` and error flag); or there is a pass `p` of the run before which it is in
+    progress and after which the client is gone — destroyed by an error on its descriptor; the completions of its actions
+    are dropped — or idle: answered, which is the situation of `C02_sound`, `C02_complete`, `C02_errors_named`. -/
+theorem C02_outcomes (g : Nat) (ps : List PassIn) (w : W) (c : Cli) (k : CmdC) (hinv : Inv w) (ha : Alive w ps)
+    (hc : cliRec w g = some c) (hk : c.cmd = some k) :
+    (∃ c' k', cliRec (runPasses w ps) g = some c' ∧ c'.cmd = some k' ∧ k'.al = k.al) ∨
+    (∃ ps1 p ps2, ps = ps1 ++ p :: ps2 ∧
+      (∃ c1 k1, cliRec (runPasses w ps1) g = some c1 ∧ c1.cmd = some k1 ∧ k1.al = k.al) ∧
+      (cliRec (runPasses w (ps1 ++ [p])) g = none ∨ ∃ c2, cliRec (runPasses w (ps1 ++ [p])) g = some c2 ∧ c2.cmd = none)) :=
+  run_outcome g ps w c k hinv ha hc hk
+
+/-- **A command in progress over a run.**  If after the run the client still has the command with the same arglist id, it
+    is the command it had, with `pending` lowered by the number of completions the run reported for the client — fewer
+    than `pending` — and the error flag or-ed with "one of them failed".  (A command that is over never comes back:
+    arglist ids are not reused.) -/
+theorem C02_track (g : Nat) (ps : List PassIn) (w : W) (c : Cli) (k : CmdC) (hinv : Inv w) (ha : Alive w ps)
+    (hc : cliRec w g = some c) (hk : c.cmd = some k) (c' : Cli) (k' : CmdC)
+    (hc' : cliRec (runPasses w ps) g = some c') (hk' : c'.cmd = some k') (hal : k'.al = k.al) :
+    (runFins w ps g).length < k.pending ∧
+    k' = { k with error := k.error || (runFins w ps g).any failed, pending := k.pending - (runFins w ps g).length } :=
+  run_track g ps w c k hinv ha hc hk c' k' hc' hk' hal
+
+example : ∃ c' k', cliRec (runPasses Ex.w0 [Ex.p1, Ex.p2, Ex.p3]) 1 = some c' ∧ c'.cmd = some k' ∧ k'.pending = 1 :=
+  ⟨Ex.c0, Ex.k0, Ex.hc0, Ex.hk0, by decide +kernel⟩
+
+/-- **`assert(c->cmd != NULL)` in `_act_finish` is unreachable.**  Under the invariant, in the turn of any device (`anyBad`:
+    some `_act_finish` call of the turn's callbacks returned through an assertion) the only way `_act_finish` can end in an
+    assertion is F19: the last completion of a command (`pending = 1`) arrives and the reply cannot be built because
+    `hostlist_sort` asserts — which happens for query commands only (`C02_success_iff`: a power command always has a
+    reply).  A completion never reaches a client that has no command. -/
+theorem C02_act_finish_assert_unreachable (p : PassIn) (a : DevAcc) (nd : Bytes × Dev) (rest : List (Bytes × Dev))
+    (hinv : Inv (Pm.Daemon.Isolation.worldAt a (nd :: rest)))
+    (h : anyBad nd.1 (afterStep a.w (devStep p a.w a.oracle nd).1) (devStep p a.w a.oracle nd).2.2.1 = true) :
+    ∃ wm g c k e, cliOf wm g = some c ∧ c.cmd = some k ∧ k.pending = 1 ∧ finalReply c.exprange (withStore wm k e) = none :=
+  devPass_assert_unreachable p a nd rest hinv h
+
+/-- in pass 4 of the example run no `_act_finish` call ends in an assertion -/
+example : (match (cliPostPoll Ex.w3x Ex.p4.acc Ex.p4.envs).devs with
+    | nd :: _ => anyBad nd.1 (afterStep (acc0 (cliPostPoll Ex.w3x Ex.p4.acc Ex.p4.envs)).w
+        (devStep Ex.p4 (acc0 (cliPostPoll Ex.w3x Ex.p4.acc Ex.p4.envs)).w (acc0 (cliPostPoll Ex.w3x Ex.p4.acc Ex.p4.envs)).oracle nd).1)
+        (devStep Ex.p4 (acc0 (cliPostPoll Ex.w3x Ex.p4.acc Ex.p4.envs)).w (acc0 (cliPostPoll Ex.w3x Ex.p4.acc Ex.p4.envs)).oracle nd).2.2.1
+    | [] => true) = false := by decide +kernel
+
+/-- **The accepting pass.**  Whatever command client `g` has when the client phase of a pass is over — in particular one
+    accepted in this very pass, whose error flag is clear (second part: the client had no command, or was not there, when
+    the pass began) — waits for exactly the actions of `g` then queued, and the device phase of the pass treats it as
+    `C02_pass` says.  So the chain is: request accepted (`C02_request_installed`) ▸ device phase of that pass (this
+    theorem) ▸ the following passes (`C02_track`) ▸ the answering pass (`C02_sound`, `C02_complete`, `C02_errors_named`). -/
+theorem C02_accepting_pass (w : W) (p : PassIn) (g : Nat) (hinv : Inv w) :
+    (∀ c1 k, passDead w p = false → cliRec (cliPostPoll w p.acc p.envs) g = some c1 → c1.cmd = some k →
+      k.pending = totalQ g (cliPostPoll w p.acc p.envs).devs ∧
+      (((passFins w p g).length < k.pending ∧
+        cliRec (daemonPass w p).1 g =
+          some { c1 with cmd := some { k with error := k.error || (passFins w p g).any failed,
+                                              pending := k.pending - (passFins w p g).length },
+                         toBuf := c1.toBuf ++ passText w p g }) ∨
+       ((passFins w p g).length = k.pending ∧
+        ∃ r, finalReply c1.exprange { k with error := k.error || (passFins w p g).any failed,
+                                             args := (storeArgs (daemonPass w p).1 k.al).map argC } = some r ∧
+          cliRec (daemonPass w p).1 g = some { c1 with cmd := none, toBuf := c1.toBuf ++ passText w p g ++ r ++ prompt }))) ∧
+    ((∀ c k, cliRec w g = some c → c.cmd = some k → False) →
+      ∀ c1 k, cliRec (cliPostPoll w p.acc p.envs) g = some c1 → c1.cmd = some k → k.error = false) :=
+  ⟨fun c1 k hd hc hk => devPhase_view w p g c1 k hinv hd hc hk, fun hidle => cliPostPoll_fresh w p.acc p.envs g hinv hidle⟩
+
+/-- in the example run the request is accepted in pass 2 (client 1 idle before it, busy with a clear flag after its client phase) -/
+example : ∀ c1 k, cliRec (cliPostPoll (runPasses Ex.w0 [Ex.p1]) Ex.p2.acc Ex.p2.envs) 1 = some c1 → c1.cmd = some k → k.error = false :=
+  (C02_accepting_pass (runPasses Ex.w0 [Ex.p1]) Ex.p2 1
+    (runPasses_inv Ex.w0 [Ex.p1] Ex.inv0 ⟨by decide +kernel, trivial⟩)).2
+    (by intro c k hc hk
+        have h1 : ((cliRec (runPasses Ex.w0 [Ex.p1]) 1).bind (·.cmd)).isNone = true := by decide +kernel
+        rw [hc] at h1; simp [hk] at h1)
+
+end endToEnd
 
 end Pm.Props.C02
